@@ -5,6 +5,7 @@ import (
 	"fmt"
 	"io"
 	"sort"
+	"strconv"
 	"strings"
 
 	"pault.ag/go/debian/deb"
@@ -105,32 +106,26 @@ func c15IterateAr(c *core.C, raw []byte, report bool, sized bool) (arOutcome, bo
 		}
 		progressed = true
 		c.Cover("ar:members-returned")
-		off := int64(-1)
+		// evidence only (implementation-specific): where the reader fetched a 60-byte header from
 		if n := len(cr.Headers); n > 0 {
-			off = cr.Headers[n-1]
+			c.Cover("ar:header-read-observed")
 		}
-		if report {
-			if off < 0 || off+60 > int64(len(raw)) || raw[off+58] != '`' || raw[off+59] != '\n' {
-				var hdr []byte
-				if off >= 0 && off+60 <= int64(len(raw)) {
-					hdr = raw[off : off+60]
-				}
-				c.Failf("member %q returned from a header without the two-byte header magic (header at %d: %q)", e.Name, off, hdr)
-			}
-			if e.Size < 0 {
-				c.Failf("member %q returned with negative size %d", e.Name, e.Size)
-			}
+		if report && e.Size < 0 {
+			c.Failf("member %q returned with negative size %d", e.Name, e.Size)
 		}
 		delivered := int64(-1)
-		if e.Data != nil && e.Size >= 0 && e.Size <= int64(len(raw)) {
-			n, _ := io.Copy(io.Discard, io.LimitReader(e.Data, int64(len(raw))+1))
-			delivered = n
-		} else if e.Data != nil && e.Size > int64(len(raw)) {
-			n, _ := io.Copy(io.Discard, io.LimitReader(e.Data, int64(len(raw))+1))
-			delivered = n
+		var content []byte
+		if e.Data != nil {
+			content, _ = io.ReadAll(io.LimitReader(e.Data, int64(len(raw))+1))
+			delivered = int64(len(content))
 		}
 		if report && e.Size >= 0 && delivered != e.Size {
 			c.Failf("member %q has Size %d but its reader delivers %d bytes (input is %d bytes)", e.Name, e.Size, delivered, len(raw))
+		}
+		// decided on input and output alone, not on how the reader went about it: the input must hold, somewhere,
+		// a 60-byte header that ends in the two-byte magic, announces this size and is followed by these bytes
+		if report && e.Size >= 0 && delivered == e.Size && !c15HeaderFor(raw, e.Size, content) {
+			c.Failf("member %q (size %d) was returned, but the input holds no 60-byte header ending in the magic \"`\\n\" that announces %d bytes and is followed by the bytes delivered", e.Name, e.Size, e.Size)
 		}
 		out.members = append(out.members, fmt.Sprintf("%s/%d/%d", e.Name, e.Size, delivered))
 	}
@@ -138,6 +133,32 @@ func c15IterateAr(c *core.C, raw []byte, report bool, sized bool) (arOutcome, bo
 		c.Failf("iteration did not end within %d steps for %d input bytes (at most one step per 60 bytes)", len(raw)/60+3, len(raw))
 	}
 	return out, true
+}
+
+// c15HeaderFor: is there an offset p with raw[p+58:p+60] == "`\n", a size column raw[p+48:p+58] that
+// reads as size, and raw[p+60:p+60+size] == content?
+func c15HeaderFor(raw []byte, size int64, content []byte) bool {
+	for p := 0; p+60 <= len(raw); p++ {
+		if raw[p+58] != '`' || raw[p+59] != '\n' {
+			continue
+		}
+		f := strings.Trim(string(raw[p+48:p+58]), " \t\n\r\v\f\x00\u0085\u00a0")
+		var n int64
+		if f != "" {
+			v, err := strconv.ParseInt(f, 10, 64)
+			if err != nil {
+				continue
+			}
+			n = v
+		}
+		if n != size || int64(p)+60+n > int64(len(raw)) {
+			continue
+		}
+		if bytes.Equal(raw[p+60:int64(p)+60+n], content) {
+			return true
+		}
+	}
+	return false
 }
 
 func tailInts(x []int64, n int) []int64 {
